@@ -12,12 +12,15 @@ import FordModel.Lemmas.Admonition
 import FordModel.Lemmas.Meta
 import FordModel.Lemmas.Attach
 import FordModel.Lemmas.ReaderDoc
+import FordModel.Lemmas.ReaderInline
 import FordModel.DocConvert
 import FordModel.Lemmas.DocConvert
 import FordModel.AttachIface
 import FordModel.Lemmas.AttachIface
 import FordModel.Lemmas.ReaderQuote
 import FordModel.IncludeMarks
+import FordModel.Summary
+import FordModel.Lemmas.Summary
 import FordModel.Lemmas.IncludeMarks
 namespace Ford.C03
 open Ford
@@ -469,6 +472,130 @@ example :
   simp only [DLine.wf, NoDoc]
   decide
 
+/-! ## Several statements on one source line (`;`) and the order in which buffered doc lines are handed out
+    (`FortranReader.__next__`: `pending` first, then `docbuffer`) -/
+
+/-- A source line `<code>!<doc-marker><t>` whose code part (outside comments; closed character
+    literals allowed) holds **any number of `;`-separated statements**, read from a state between
+    two logical lines, for every marker configuration: every statement of the line is emitted
+    first, the inline doc line after the last of them, then the reading of the rest continues from
+    a state between logical lines.  So a doc comment at the end of `a; b` follows `b`. -/
+theorem inline_doc_lands_after_every_statement_of_its_line (m : Marks) (pd : Bool) (p t : Str) (x : Char)
+    (r : Str) (rest : List Str) (hp : Atoms p) (hne : m.doc ≠ [])
+    (h0 : firstStripped (p ++ '!' :: (m.doc ++ t)) ≠ some '#')
+    (h1 : startsWith (m.doc ++ t) m.pre = false) (h2 : startsWith (m.doc ++ t) m.preAlt = false)
+    (h3 : startsWith (m.doc ++ t) m.alt = false)
+    (hc : strip p = x :: r) (hx : x ≠ '&') (hl : (x :: r).getLast? ≠ some '&')
+    (hJ : itemsOf (' ' :: x :: r) ≠ []) :
+    readFrom m (fresh pd) ((p ++ '!' :: (m.doc ++ t)) :: rest) =
+      match readFrom m (fresh true) rest with
+      | .error e => .error e
+      | .ok more => .ok (itemsOf (' ' :: x :: r) ++ ['!' :: (m.doc ++ t)] ++ more) := by
+  have hf : feed m (fresh pd) (p ++ '!' :: (m.doc ++ t)) =
+      .ok (fresh true, itemsOf (' ' :: x :: r) ++ ['!' :: (m.doc ++ t)]) := by
+    have := feed_stmt_inline m [] pd false p t x r hp hne h0 h1 h2 h3 hc hx hl hJ
+    simpa [fresh] using this
+  rw [readFrom_step m (fresh pd) (fresh true) _ rest _ hf]
+  cases readFrom m (fresh true) rest <;> rfl
+
+/-- The "docbuffer ordering" of the property: a preceding block (as in
+    `predoc_block_lands_after_statement`), then a statement line that ends in an inline doc comment:
+    the statement(s), then the whole preceding block in order, then the inline doc line — the
+    entity's documentation is its comment in source order, the preceding lines before the trailing
+    ones, whatever the markers are. -/
+theorem predoc_block_then_inline_doc_in_source_order (m : Marks) (pd : Bool) (ind0 t0 : Str) (blk : List DLine)
+    (p t : Str) (x : Char) (r : Str) (rest : List Str)
+    (hw0 : (DLine.pre ind0 t0).wf m) (hb : ∀ b ∈ blk, b.wf m)
+    (hp : Atoms p) (hne : m.doc ≠ [])
+    (h0 : firstStripped (p ++ '!' :: (m.doc ++ t)) ≠ some '#')
+    (h1 : startsWith (m.doc ++ t) m.pre = false) (h2 : startsWith (m.doc ++ t) m.preAlt = false)
+    (h3 : startsWith (m.doc ++ t) m.alt = false)
+    (hc : strip p = x :: r) (hx : x ≠ '&') (hl : (x :: r).getLast? ≠ some '&')
+    (hJ : itemsOf (' ' :: x :: r) ≠ []) :
+    readFrom m (fresh pd) ((DLine.pre ind0 t0 :: blk).map (DLine.render m) ++ (p ++ '!' :: (m.doc ++ t)) :: rest) =
+      match readFrom m (fresh true) rest with
+      | .error e => .error e
+      | .ok more =>
+        .ok (itemsOf (' ' :: x :: r) ++ (DLine.pre ind0 t0 :: blk).flatMap (DLine.docs m)
+              ++ ['!' :: (m.doc ++ t)] ++ more) :=
+  readFrom_predoc_block_inline m pd ind0 t0 blk p t x r rest hw0 hb hp hne h0 h1 h2 h3 hc hx hl hJ
+
+/-- Reader and parser together: the line holds the statements `A ++ [it]` (`A` arbitrary, `it` a
+    declaration of the names `ns`).  Whatever the statements `A` do to the parser state (`sA`), the
+    inline comment becomes the docstring `[t]` of exactly the entities declared by the **last**
+    statement; the entities that exist after `A` — those declared by the earlier statements of the
+    same line among them — are taken over unchanged. -/
+theorem inline_doc_documents_last_statement_of_its_line (c : Char) (m : Marks) (hd : m.doc = [c]) (pd : Bool)
+    (p t : Str) (x : Char) (r : Str) (rest more : List Str) (s : ASt) (A : List Str) (it : Str)
+    (ns : List Str) (sp : Bool) (hp : Atoms p)
+    (h0 : firstStripped (p ++ '!' :: (m.doc ++ t)) ≠ some '#')
+    (h1 : startsWith (m.doc ++ t) m.pre = false) (h2 : startsWith (m.doc ++ t) m.preAlt = false)
+    (h3 : startsWith (m.doc ++ t) m.alt = false)
+    (hc : strip p = x :: r) (hx : x ≠ '&') (hl : (x :: r).getLast? ≠ some '&')
+    (hJ : itemsOf (' ' :: x :: r) = A ++ [it])
+    (hnd : it.take 2 ≠ ['!', c]) (hcl : classify it = .leafAll ns sp) (hne : ns ≠ [])
+    (hrest : readFrom m (fresh true) rest = .ok more) :
+    ∃ items, readFrom m (fresh pd) ((p ++ '!' :: (m.doc ++ t)) :: rest) = .ok items ∧
+      attachFrom [c] s items =
+        attachFrom [c] { stack := (attachFrom [c] s A).stack, reading := ns.length,
+                         ents := (attachFrom [c] s A).ents ++ ns.map (fun n => ⟨n, sp, [t], []⟩) } more := by
+  refine ⟨A ++ it :: ([t].map (fun d => '!' :: c :: d) ++ more), ?_, ?_⟩
+  · rw [inline_doc_lands_after_every_statement_of_its_line m pd p t x r rest hp (by simp [hd]) h0 h1 h2 h3 hc hx hl
+      (by simp [hJ]), hrest, hJ, hd]
+    simp
+  · rw [attachFrom_append]
+    exact attach_leaf_docstring c _ it ns sp [t] more hnd hcl hne
+
+/-- The two-declaration case spelled out: `d1; d2 !<doc>t` — the entities of `d1` have an empty
+    docstring, the entities of `d2` have `[t]`, every earlier entity is unchanged. -/
+theorem inline_doc_after_two_declarations_documents_the_second (c : Char) (m : Marks) (hd : m.doc = [c])
+    (pd : Bool) (p t : Str) (x : Char) (r : Str) (rest more : List Str) (s : ASt) (d1 d2 : Str)
+    (ns1 ns2 : List Str) (sp1 sp2 : Bool) (hp : Atoms p)
+    (h0 : firstStripped (p ++ '!' :: (m.doc ++ t)) ≠ some '#')
+    (h1 : startsWith (m.doc ++ t) m.pre = false) (h2 : startsWith (m.doc ++ t) m.preAlt = false)
+    (h3 : startsWith (m.doc ++ t) m.alt = false)
+    (hc : strip p = x :: r) (hx : x ≠ '&') (hl : (x :: r).getLast? ≠ some '&')
+    (hJ : itemsOf (' ' :: x :: r) = [d1, d2])
+    (hn1 : d1.take 2 ≠ ['!', c]) (hc1 : classify d1 = .leafAll ns1 sp1)
+    (hn2 : d2.take 2 ≠ ['!', c]) (hc2 : classify d2 = .leafAll ns2 sp2) (hne : ns2 ≠ [])
+    (hrest : readFrom m (fresh true) rest = .ok more) :
+    ∃ items, readFrom m (fresh pd) ((p ++ '!' :: (m.doc ++ t)) :: rest) = .ok items ∧
+      attachFrom [c] s items =
+        attachFrom [c] { stack := s.stack, reading := ns2.length,
+                         ents := s.ents ++ ns1.map (fun n => ⟨n, sp1, [], []⟩)
+                                  ++ ns2.map (fun n => ⟨n, sp2, [t], []⟩) } more := by
+  obtain ⟨items, hr, ha⟩ := inline_doc_documents_last_statement_of_its_line c m hd pd p t x r rest more s [d1] d2
+    ns2 sp2 hp h0 h1 h2 h3 hc hx hl (by simp [hJ]) hn2 hc2 hne hrest
+  refine ⟨items, hr, ?_⟩
+  rw [ha]
+  simp [attachFrom, attachStep_stmt c s d1 hn1, hc1, mkEnts]
+
+/-- worked instance (non-default markers `doc = ^`, `pre = <`): three statements on one line with a
+    literal that holds `;` and `!^`, a preceding line for the next declaration, a trailing `;` -/
+example :
+    let m : Marks := { doc := ['^'], pre := ['<'], alt := ['~'], preAlt := ['$'] }
+    ((readAll m ["integer :: a; character(3) :: s = ';!^' ; integer :: b !^ db".toList,
+                 "real :: c; real :: d;".toList, "!^ dd".toList]).toOption.map (attach ['^'])).map
+        (fun es => es.map (fun e => (e.name, e.init)))
+      = some [("<file>".toList, []), ("a".toList, []), ("s".toList, []), ("b".toList, [" db".toList]),
+              ("c".toList, []), ("d".toList, [" dd".toList])] := by
+  decide
+
+/-- non-vacuity of the four theorems above: the hypotheses hold for `integer :: a; integer :: b !^ db` -/
+example :
+    let m : Marks := { doc := ['^'], pre := ['<'], alt := ['~'], preAlt := ['$'] }
+    Atoms "integer :: a; integer :: b ".toList ∧
+    firstStripped ("integer :: a; integer :: b ".toList ++ '!' :: (m.doc ++ " db".toList)) ≠ some '#' ∧
+    startsWith (m.doc ++ " db".toList) m.pre = false ∧ startsWith (m.doc ++ " db".toList) m.preAlt = false ∧
+    startsWith (m.doc ++ " db".toList) m.alt = false ∧
+    strip "integer :: a; integer :: b ".toList = "integer :: a; integer :: b".toList ∧
+    itemsOf (' ' :: "integer :: a; integer :: b".toList) = ["integer :: a".toList, "integer :: b".toList] ∧
+    classify "integer :: a".toList = .leafAll ["a".toList] true ∧
+    classify "integer :: b".toList = .leafAll ["b".toList] true := by
+  refine ⟨?_, by decide, by decide, by decide, by decide, by decide, by decide, by decide, by decide⟩
+  repeat (first | exact Atoms.nil | refine Atoms.plain _ _ (by decide) (by decide) ?_)
+
+
 /-! ## Which entities are converted (`_to_be_markdowned`, `markdownable_items`, `FortranType.correlate`,
     `Project.markdown`) -/
 
@@ -723,5 +850,96 @@ example :
       = [("<file>".toList, []), ("mm".toList, []), ("a".toList, [" da".toList]), ("b".toList, [" db".toList]),
          ("c".toList, [" dc1".toList, " dc2".toList, []]), ("d".toList, [" dd1".toList, " dd2".toList])] := by
   decide
+
+/-! ## From the doc lines to what is shown: `FortranBase.markdown` (dedent, conversion, summary) -/
+
+/-- `textwrap.dedent`, which `FortranBase.markdown` applies to the joined doc lines before the
+    conversion, keeps every word exactly once and in order - for every comment, whatever its
+    indentation (common margin of blanks and tabs, white-space-only lines, empty lines). -/
+theorem dedent_keeps_every_word (ls : List Str) : W (dedent ls) = W ls := dedent_words ls
+
+/-- What `PARA_CAPTURE_RE.search` returns is a piece of the entity's own rendered documentation:
+    `doc = pre ++ para ++ post`, `para` is `<p>` … `</p>` (any letter case), it starts at the first
+    `<p>` of the documentation and ends at the first `</p>` behind it - never reaching into a later
+    paragraph, never text from anywhere else. -/
+theorem summary_paragraph_is_first_paragraph_of_own_doc (doc pre para post : Str)
+    (h : paraCapture doc = some (pre, para, post)) :
+    doc = pre ++ para ++ post ∧
+    ∃ o body c, para = o ++ body ++ c ∧ lower o = pOpen ∧ lower c = pClose ∧
+      (∀ k, k < pre.length → startsWithCI (doc.drop k) pOpen = false) ∧
+      (∀ k, k < body.length → startsWithCI ((body ++ c ++ post).drop k) pClose = false) :=
+  paraCapture_spec doc pre para post h
+
+/-- Without a `summary:` metadata the summary (before the link) is a contiguous part of the entity's
+    own rendered documentation, for every documentation and with or without URL: no word of it comes
+    from anywhere else, none is duplicated or reordered. -/
+theorem summary_is_part_of_own_doc (doc : Str) (url : Option Str) :
+    summaryCore doc none url <:+: doc := by
+  unfold summaryCore summaryCoreV
+  cases h : paraCapture doc with
+  | none => exact ⟨[], doc, by simp⟩
+  | some r =>
+    obtain ⟨pre, para, post⟩ := r
+    have hd := (paraCapture_spec doc pre para post h).1
+    cases url with
+    | none => exact ⟨[], [], by simp⟩
+    | some u => exact ⟨pre, post, by simp [hd]⟩
+
+/-- An entity that has no place of its own in the output (`get_url()` is `None`, e.g. a derived type
+    local to a procedure) shows its whole documentation as summary, unchanged and without a link -
+    provided the documentation has a paragraph (see the `_witness` below). -/
+theorem summary_without_url_is_whole_doc_partial (doc : Str) (h : paraCapture doc ≠ none) :
+    summaryOf doc none none = doc := by
+  unfold summaryOf summaryOfV summaryCoreV
+  cases h' : paraCapture doc with
+  | none => exact absurd h' h
+  | some r => obtain ⟨pre, para, post⟩ := r; rfl
+
+/-- With fixes/C03-summary-without-paragraph.diff the same holds for every documentation. -/
+theorem summary_without_url_is_whole_doc_when_fixed (doc : Str) : summaryOfV true doc none none = doc := by
+  unfold summaryOfV summaryCoreV
+  cases h' : paraCapture doc with
+  | none => rfl
+  | some r => obtain ⟨pre, para, post⟩ := r; rfl
+
+/-- As the code is: documentation without any paragraph (only a list, only a code block) of an
+    entity without URL gives the empty summary - nothing of the comment is in it. -/
+theorem summary_without_url_and_paragraph_witness :
+    summaryOf "<ul>\n<li>t1q0 t1q1</li>\n</ul>".toList none none = [] := by decide
+
+/-- A shortened summary always carries the link to the place where the complete documentation is,
+    and a complete one never does: for every documentation, URL and `summary:` value the summary is
+    the core followed by the "Read more" link (text probed from the code, `Gen.readMorePre/Suf`)
+    exactly when the core differs from the whole documentation (blanks at the ends ignored). -/
+theorem shortened_summary_links_to_full_documentation (doc u : Str) (ms : Option Str) :
+    summaryOf doc ms (some u) =
+      summaryCore doc ms (some u) ++
+        (if strip (summaryCore doc ms (some u)) = strip doc then [] else Gen.readMorePre ++ u ++ Gen.readMoreSuf) := by
+  unfold summaryOf summaryOfV
+  by_cases h : strip (summaryCore doc ms (some u)) = strip doc
+  · simp [summaryCore] at h; simp [h, summaryCore]
+  · simp [summaryCore] at h; simp [h, readMore, summaryCore]
+
+/-- A documentation that is one paragraph is its own summary: complete, and without link - whether
+    the entity has a URL or not. -/
+theorem single_paragraph_doc_is_its_own_summary (body : Str) (hb : '<' ∉ body) (url : Option Str) :
+    summaryOf (pOpen ++ body ++ pClose) none url = pOpen ++ body ++ pClose := by
+  unfold summaryOf summaryOfV summaryCoreV
+  rw [paraCapture_single body hb]
+  cases url <;> simp
+
+/-- The `summary:` metadata of the comment, when set, is what is shown (converted), whatever the
+    body says; the paragraph rule does not apply. -/
+theorem summary_metadata_is_shown (doc s : Str) (url : Option Str) : summaryCore doc (some s) url = s := rfl
+
+/-- non-vacuity / worked instances on the probed link text: a two-paragraph documentation with URL is
+    cut after the first paragraph (upper-case tags, a line break inside the paragraph) and linked;
+    without URL it is shown whole; an unclosed first `<p>` gives no paragraph at all -/
+example :
+    summaryOf "<ul><li>x</li></ul>\n<P>t1q0\nt1q1</P>\n<p>t1q2</p>".toList none (some "proc/s.html".toList)
+      = "<P>t1q0\nt1q1</P><a href=\"../proc/s.html\" class=\"pull-right\"><emph>Read more&hellip;</emph></a>".toList ∧
+    summaryOf "<p>t1q0</p>\n<p>t1q2</p>".toList none none = "<p>t1q0</p>\n<p>t1q2</p>".toList ∧
+    paraCapture "<p>t1q0 <p>t1q1".toList = none ∧
+    paraCapture "<p>a</p>".toList ≠ none := by decide
 
 end Ford.C03
